@@ -147,8 +147,13 @@ class FuncFacts:
                 if cn is not None:
                     _decompose(cn, truth, out)
         # conditions evaluated earlier in the same block do not branch (a block has one terminator), so done.
-        # A lambda body inherits the facts holding where the lambda expression is created *only* for
-        # by-value immutable data; we do not assume that.
+        # A lambda body inherits the control facts that hold where the lambda expression is created: in this code base lambdas are handed to
+        # <algorithm> calls and run at once (the three stored lambdas of the library capture nothing that the facts mention).
+        lam = self.func.enclosing_lambda(node)
+        if lam is not None:
+            outer = self.conds_at(lam)
+            if outer:
+                out = out + outer
         return out
 
     def rendered_conds_at(self, node):
@@ -965,3 +970,71 @@ def subst_names(text, sub):
     for k, v in sub.items():
         text = re.sub(r'(?<![\w>.])%s\b' % re.escape(k), lambda m_: v, text)
     return text
+
+
+def predicate_body(F, call):
+    """For a call of a small predicate helper (a function with a body that is a single `return <expr>;`): (helper, expr, {param: arg text})."""
+    for ck in F.callee_keys(call):
+        g = F.funcs.get(ck)
+        if g is None:
+            continue
+        body = next((n for n in g.walk() if n.get('k') == 'Compound'), None)
+        if body is None or len(body.get('c', [])) != 1 or body['c'][0].get('k') != 'Return' or not body['c'][0].get('c'):
+            continue
+        args = call['c'][1:] if call.get('mc') else call.get('c', [])
+        if len(args) != len(g.params):
+            continue
+        sub = {p['n']: render(a) for p, a in zip(g.params, args)}
+        if call.get('mc') and call.get('c'):
+            sub['this'] = render(call['c'][0])
+        return g, body['c'][0]['c'][0], sub
+    return None
+
+
+def facts_x(F, f, node):
+    """Branch facts at node as (text, truth), with (a) named sub-conditions spelled out (rendered_conds_x) and (b) calls of small predicate
+    helpers replaced by the conjuncts/disjuncts of their body, parameters replaced by the arguments: `if (!canDo(a, b)) return;` with
+    `canDo(x, y) { return x != nullptr && y->ok(); }` yields (a != nullptr, True) and (b->ok(), True) after the if."""
+    out = set(rendered_conds_x(f, node) or set())
+    for c, t in (ff(f).conds_at(node) or []):
+        cc, tt = c, t
+        while cc.get('k') in ('Paren', 'Cast') and len(cc.get('c', [])) == 1:
+            cc = cc['c'][0]
+        if cc.get('k') == 'Call' and not cc.get('opc'):
+            pb = predicate_body(F, cc)
+            if pb is not None:
+                g, e, sub = pb
+                tmp = []
+                _decompose(e, tt, tmp)
+                for c2, t2 in tmp:
+                    out.add((subst_names(render(c2), sub), t2))
+    # normalise `x != nullptr` / `x == nullptr` pairs so that either spelling can be asked for
+    extra = set()
+    for c, t in out:
+        if c.endswith(' != nullptr'):
+            extra.add((c[:-len(' != nullptr')] + ' == nullptr', not t))
+        elif c.endswith(' == nullptr'):
+            extra.add((c[:-len(' == nullptr')] + ' != nullptr', not t))
+    return out | extra
+
+
+def element_visits(f, suffix):
+    """Where every element of the collection `<...>suffix` is visited: yields (element declaration id, body node, site node) for a range-for
+    over it (or over a local copy of it) and for std::for_each over [begin, end) of it with a lambda (element = the lambda's parameter)."""
+    def is_coll(e):
+        t = render(e).replace(' ', '')
+        if t.endswith(suffix.replace(' ', '')):
+            return True
+        for x in walk(e):
+            if x.get('k') == 'Ref' and x.get('dk') == 'local':
+                i_ = single_def(f, x.get('d'))
+                if i_ is not None and render(i_).replace(' ', '').endswith(suffix.replace(' ', '')):
+                    return True
+        return False
+    for l in f.walk():
+        if l.get('k') == 'RangeFor' and is_coll(role(l, 'range')):
+            yield l['c'][0].get('d'), role(l, 'body'), l
+        elif l.get('k') == 'Call' and l.get('callee') == 'std::for_each' and len(l.get('c', [])) >= 3 and is_coll(l['c'][0]):
+            lam = next((x for x in walk(l['c'][2]) if x.get('k') == 'Lambda'), None)
+            if lam is not None and lam.get('params'):
+                yield lam['params'][0].get('d'), lam, l
